@@ -271,6 +271,7 @@ def run_pointwise(ctx, chk, tables):
 
 def constructor_sorted(ctx, chk):
     """Scores.__init__ / GroupScores.__init__ leave pos and neg ascending unless is_sorted."""
+    flag_identity(ctx, chk)
     P = Sym("p_in", ("param", "array", "notnone", "rawdtype"))
     N = Sym("n_in", ("param", "array", "notnone", "rawdtype"))
     for cls, kw in ((SCORES, {}), (GROUP, {"pos_groups": Sym("pg", ("param", "array", "notnone")), "neg_groups": Sym("ng", ("param", "array", "notnone"))})):
@@ -325,6 +326,78 @@ def constructor_sorted(ctx, chk):
                     else:
                         chk.violation("R01.4", init, inst, "self.%s = %s" % (attr, show(v, 200) if v is not None else "unset"),
                                       "an ascending array (np.sort / joint argsort) when is_sorted is false", ctx.where(init))
+
+
+def flag_identity(ctx, chk, rule="R01.7"):
+    """The direction flags are compared by IDENTITY somewhere (`x.score_class is BinaryLabel.neg`) only if every way an object comes to exist
+    stores BinaryLabel members: the flags may be given as strings ("neg" == BinaryLabel.neg, but "neg" is not BinaryLabel.neg), so an identity
+    test reads a string-flagged object as the other configuration.  Each half is harmless alone; the rule reports the combination and names
+    both constructs."""
+    import ast
+    from ..evalr import EnumM
+    if getattr(chk, "_flag_identity_done", False):
+        return
+    chk._flag_identity_done = True
+    sites = []
+    for m in ctx.db.modules.values():
+        for n in ast.walk(m.tree):
+            if isinstance(n, ast.Compare) and any(isinstance(o, (ast.Is, ast.IsNot)) for o in n.ops):
+                parts = [n.left] + list(n.comparators)
+                txt = [ast.unparse(p_) for p_ in parts]
+                if any(isinstance(p_, ast.Constant) and p_.value is None for p_ in parts):
+                    continue
+                if any("BinaryLabel." in t or t.endswith(("score_class", "equal_class", "ratio_class")) for t in txt):
+                    sites.append("%s:%d `%s`" % (m.relpath, n.lineno, ast.unparse(n)[:70]))
+
+    def normalised(v):
+        if isinstance(v, EnumM):
+            return True
+        if isinstance(v, App) and v.fn == "ite":
+            return normalised(v.args[1]) and normalised(v.args[2])
+        return False
+    raw = []
+    P = Sym("p_in", ("param", "array", "notnone", "sorted"))
+    N = Sym("n_in", ("param", "array", "notnone", "sorted"))
+    n_paths = 0
+    for cls, kw in ((SCORES, {}), (GROUP, {"pos_groups": Sym("pg", ("param", "array", "notnone")), "neg_groups": Sym("ng", ("param", "array", "notnone"))})):
+        ci = ctx.db.cls(cls)
+        for flag in (Const(True), Const(False)):
+            kwargs = dict(kw, score_class=Const("neg"), equal_class=Const("neg"), is_sorted=flag)
+            try:
+                outs = ctx.explore(lambda: ctx.ev.instantiate(ci, [P, N], dict(kwargs)), chk)
+            except Exception as e:  # noqa: BLE001
+                chk.unknown(rule, "%s(is_sorted=%s, string flags): %s" % (cls.split(".")[-1], show(flag), str(e)[:120]))
+                continue
+            for o in returns(outs):
+                n_paths += 1
+                for attr in ("score_class", "equal_class"):
+                    v = o.value.attrs.get(attr)
+                    if v is not None and not normalised(v):
+                        raw.append("%s(..., %s='neg', is_sorted=%s) stores self.%s = %s" % (cls.split(".")[-1], attr, show(flag), attr, show(v, 40)))
+        # derived objects
+        for sc, ec in (("pos", "neg"), ("neg", "pos")):
+            try:
+                outs = ctx.explore(lambda: ctx.ev.call(ctx.method(ctx.scores_obj(sc, ec, cls), "swap"), [], {}), chk)
+            except Exception as e:  # noqa: BLE001
+                chk.unknown(rule, "%s.swap(): %s" % (cls.split(".")[-1], str(e)[:120]))
+                continue
+            for o in returns(outs):
+                n_paths += 1
+                if not isinstance(o.value, Obj):
+                    continue
+                for attr in ("score_class", "equal_class"):
+                    v = o.value.attrs.get(attr)
+                    if v is not None and not normalised(v):
+                        raw.append("%s.swap() stores %s = %s on its result" % (cls.split(".")[-1], attr, show(v, 40)))
+    raw = sorted(set(raw))
+    if n_paths < 6:
+        chk.unknown(rule, "only %d construction paths explored" % n_paths)
+    if sites and raw:
+        chk.violation(rule, SCORES + ".__init__", "flag-identity:%s" % sites[0].split(" ")[0], "%s  while  %s" % (sites[0], raw[0]) + (" (+%d more sites, +%d more stores)" % (len(sites) - 1, len(raw) - 1)),
+                      "flags compared by value (==), or BinaryLabel members stored on every construction path: a string flag equals the member but is not identical to it",
+                      sites[0].split(" ")[0])
+    else:
+        chk.hold(rule, "flag-identity", "%d identity comparison(s) of direction flags; %d construction / swap paths, %d of them store a raw (non-member) flag" % (len(sites), n_paths, len(raw)), nontrivial=False)
 
 
 def attr_store_scan(ctx, chk):
@@ -418,6 +491,7 @@ RATE_DEFS = {  # rate -> (numerator cells, denominator cells)
 def rates_from_cm(ctx, chk, metrics=("tpr", "fnr", "tnr", "fpr", "topr", "tonr"), rule="R01.6"):
     """Each rate method of Scores is the rate of the object's own confusion matrix at that threshold: numerator and denominator
     are the documented cell sums of the decision table (easy samples included), NaN iff the denominator is 0."""
+    flag_identity(ctx, chk)
     from ..spec import cm_oracle, GAMMAS
     from ..terms import add as _add
     from .thr import rate_term
@@ -474,6 +548,7 @@ def buffer_width(ctx, chk, tab, sc, ec, rule="R01.1"):
 
 def cm_cells_rule(ctx, chk, rule="R01.1"):
     """Prerequisite form of R01.1 for properties that rest on cm(): the four cells are the decision-rule counts in every configuration."""
+    flag_identity(ctx, chk)
     from ..spec import cm_oracle, GAMMAS
     for sc, ec in GAMMAS:
         tab = derive_cm_table(ctx, chk, sc, ec, rule=rule)
